@@ -11,6 +11,7 @@ JOBS = {
     "block": ("Gen_block.v", lambda repo: translate_loops.translate_block(repo)),
     "interp": ("Gen_interp.v", lambda repo: translate_loops.translate_interp(repo)),
     "linop_table": ("Gen_linop_table.v", lambda repo: translate_linop.translate_table(repo)),
+    "shapes": ("Gen_shapes.v", lambda repo: __import__("tools.translate_shapes", fromlist=["translate_shapes"]).translate_shapes(repo)),
 }
 try:
     from tools import translate_more
